@@ -380,7 +380,7 @@ impl SubCheck for Seq {
         }
         if self.excl.slice || self.excl.array {
             s.push_str(&format!(
-                "; OPEN KNOWN FINDING: 98% of the cases are generated without the operation families {}{} (label opset=restricted), 2% with the full set",
+                "; OPEN KNOWN FINDING: 98% of the cases are generated without the operation families {}{} (label opset=restricted), 2% with the full set; for the restricted cases non-trivial = at least 5 operations whose byte-wise reads continue across a source chunk boundary",
                 if self.excl.slice { "[read_usize, read_slice(n>0), read_vec, read_string] " } else { "" },
                 if self.excl.array { "[read_u16..u128, read_array, read_many<u64|(u8,u16)>]" } else { "" }
             ));
@@ -610,7 +610,17 @@ impl SubCheck for Seq {
         if slice_then_read {
             obs.label("slice-then-read");
         }
-        obs.nontrivial_if(crossed && slice_then_read);
+        if (self.excl.slice || self.excl.array) && restricted {
+            // reduced rule while the read_slice / read_array families are excluded (see rule())
+            let consumed = cursor.position() as usize;
+            let byte_crossed = cuts.iter().any(|c| *c > 0 && *c < consumed);
+            if byte_crossed {
+                obs.label("byte-reads-across-chunk-boundary");
+            }
+            obs.nontrivial_if(byte_crossed && c.ops.len() >= 5);
+        } else {
+            obs.nontrivial_if(crossed && slice_then_read);
+        }
         Ok(())
     }
 }
